@@ -313,6 +313,7 @@ class Session:
         self.failed = False
         self.txn_open = False
         self.txn_events, self.sps, self.txn_implicit = [], [], set()
+        self.history = []        # per successful transaction: (last tid of every storage, oracle's graph)
         self.tmp_log = {}
         self.before = None
         self.events = []
@@ -784,6 +785,8 @@ class Session:
                                        % ([o.hex() for o in it], [o.hex() for o in sv]))
             if all(snap.exc is None for snap in events):
                 orc.remember(events)
+                self.emit('histmark', 'ok')           # the database as of this transaction
+                self.history.append(([st.lastTransaction() for st in self.storages], dict(self.expect)))
                 keys = sorted(set(stored_keys) | {(i, Z64) for i in range(self.ndb)})
                 self.load_phase(keys, 'pool')
                 if self.case.get('fresh_each', True):
@@ -1048,9 +1051,57 @@ class Session:
             self.violation('C14:export-set', 'exportFile(root) holds %s; reachable through strong same-database '
                            'references are %s' % (sorted(o.hex() for o in got), sorted(o.hex() for _, o in want)))
 
+    def historical_phase(self):
+        """The graph as of an earlier transaction T, loaded through a historical connection
+        (DB.open(before=...)): every reference — also one into the other database, resolved through the
+        sibling connection get_connection() opens — leads to the object as it was at T."""
+        from ZODB.POSException import ReadOnlyHistoryError
+        from ZODB.utils import p64, u64
+        if len(self.history) < 2 or not self.case.get('hist', True):
+            return
+        marks = list(dict.fromkeys([0, len(self.history) - 2]))
+        for n, k in enumerate(marks):
+            tids, expect = self.history[k]
+            before = p64(u64(max(tids)) + 1)
+            if any(b != a and b < before for a, b in zip(tids, self.history[k + 1][0])):
+                self.count('hist:skipped-clock')      # the storages' clocks do not separate T from T+1
+                continue
+            if any(before > p64(u64(st.lastTransaction()) + 1) for st in self.storages):
+                self.count('hist:skipped-future')     # DB.open refuses a bound beyond a database's last tid + 1
+                continue
+            keys = sorted(set(expect) | {(i, Z64) for i in range(self.ndb)})
+            tm = transaction.TransactionManager()
+            c = self.dbs[0].open(transaction_manager=tm, before=before)
+            try:
+                dup, out = self.real_walk(c, keys)
+                self.count('load:historical')
+                self.emit('lenv %s -' % ','.join(map(str, range(self.ndb))), 'ok')
+                self.emit('lwalkat %d %s' % (k, ','.join('%d:%s' % (d, o.hex()) for d, o in keys)),
+                          canon_walk('dup=%d | %s' % (dup, ' | '.join(out))))
+                Oracle(self).loaded(dup, out, 'historical(%d)' % k, False, None, expect=expect)
+                for name, sib in sorted(c.connections.items()):
+                    if sib.before != c.before:
+                        self.violation('C14:historical-sibling', 'the connection of %s opened for the references '
+                                       'of a historical connection (before=%s) has before=%r'
+                                       % (name, before.hex(), sib.before))
+                if self.ndb > 1 and n == len(marks) - 1:
+                    # and nothing reached through it can be changed
+                    sib = c.get_connection(DBNAMES[1])
+                    sib.root()['c14-historical'] = 1
+                    try:
+                        tm.commit()
+                        self.violation('C14:historical-sibling', 'a change to an object of %s reached through a '
+                                       'historical connection was committed' % DBNAMES[1])
+                    except ReadOnlyHistoryError:
+                        self.count('hist:readonly')
+            finally:
+                tm.abort()
+                c.close()
+
     def final_phase(self):
         if not self.ncommits or not self.expect:
             return
+        self.historical_phase()
         keys = sorted(set(self.expect) | {(i, Z64) for i in range(self.ndb)})
         allrecs = {(i, oid): data for i, st in enumerate(self.storages)
                    for oid, data in self._all_records(st).items()}
@@ -1301,7 +1352,7 @@ class Oracle:
                 s.violation('C14:failed-commit-stored', 'the transaction failed but storage %s changed'
                             % DBNAMES[i])
 
-    def loaded(self, dup, out, variant, missing, args_seen=None):
+    def loaded(self, dup, out, variant, missing, args_seen=None, expect=None):
         s = self.s
         if dup:
             s.violation('C14:identity', '%s: %d references or get() calls yielded a second in-memory '
@@ -1314,11 +1365,11 @@ class Oracle:
                 s.violation(self.sig('C14:dangling-reference', [k]),
                             '%s: reference to %s leads to %s' % (variant, key, val))
                 continue
-            if k not in s.expect:
+            if k not in (s.expect if expect is None else expect):
                 continue
             c, _, rest = val.partition('/')
             b, _, tree = rest.partition('/')
-            wc, wtoks, wargs = s.expect[k]
+            wc, wtoks, wargs = (s.expect if expect is None else expect)[k]
             if args_seen is not None and wargs is not None and k in args_seen and args_seen[k] != wargs:
                 s.violation('C14:roundtrip', '%s: object %s was created with constructor arguments %s, stored '
                             'were %s' % (variant, key, ' '.join(args_seen[k]), ' '.join(wargs)))
